@@ -19,6 +19,7 @@ import (
 )
 
 type caseOut struct {
+	idle int // 1: findings after an idle-settled point did not reproduce; 2: they did
 	res         *Result
 	trace       *Trace
 	fs          []Finding
@@ -83,7 +84,13 @@ func Main(prop string) {
 			}
 		}
 		for i := 0; i < o.N; i++ {
-			cases = append(cases, GenCase(r.Fork(), prop))
+			cr := r.Fork()
+			// one case in nine (one in six for C02) is about memoised sub-results; the others are what they were
+			if (prop == "C02" && i%6 == 4) || (prop != "C02" && i%9 == 4) {
+				cases = append(cases, GenCacheCase(cr, prop))
+				continue
+			}
+			cases = append(cases, GenCase(cr, prop))
 		}
 	}
 
@@ -169,10 +176,24 @@ func Main(prop string) {
 						} else if stalled(co.res) {
 							atomic.AddInt32(&lost, 1)
 						}
-						if prop == "C17" {
-							co.fs = OracleC17(co.res)
-						} else {
-							co.fs = OracleC02(co.res)
+						judge := func(r *Result) []Finding {
+							if prop == "C17" {
+								return OracleC17(r)
+							}
+							return OracleC02(r)
+						}
+						co.fs = judge(co.res)
+						if co.res.IdleSettled && len(co.fs) > 0 {
+							// a quiescent point was taken by the two-seconds-of-silence rule: what it shows is reported only
+							// if the case shows it again when played once more
+							co.idle = 1
+							second := RunCase(cases[i], to)
+							if fs2 := judge(second); len(fs2) > 0 {
+								co.idle = 2
+								co.res, co.fs = second, fs2
+							} else {
+								co.res, co.fs = second, nil
+							}
 						}
 						co.trace = BuildTrace(co.res)
 					}()
@@ -239,6 +260,11 @@ func Main(prop string) {
 		}
 		for _, f := range co.fs {
 			run.Fail(idx, f.Sig, f.Detail, c)
+		}
+		if co.idle == 1 {
+			run.Hist("harness:idle-settled-not-reproduced")
+		} else if co.idle == 2 {
+			run.Hist("harness:idle-settled-reproduced")
 		}
 		if co.stalls == 1 {
 			run.Hist("harness:wait-timeout-not-reproduced")
